@@ -121,6 +121,12 @@ def cases(tier, rng):
     for f, c, v, b, dd in itertools.product(freqs[:2], conds, vecs, bufs[:3], [None, (-250.0, 260.0), (-30.0, 95.0)]):
         yield dict(freq=f, cond=c, mapping='Conductivity', dom=('domain', dd) if dd else ('vector', None), stretching=(1.0, 1.5), buf=b, coe='notset', limits=None,
                    pps=3, vector=v, seasurface=None, center=0.0)
+    # a non-uniform user vector (coarse at depth, fine on top) below a sea surface
+    zvecs = [np.array([-2000.0, -1700.0, -1450.0, -1250.0, -1100.0, -1000.0, -950.0]), np.array([-1500.0, -1400.0, -1320.0, -1260.0, -1220.0]),
+             np.array([-1300.0, -1250.0, -1200.0, -1150.0])]
+    for f, c, v, sea in itertools.product(freqs[:2], conds[:2], zvecs, [-600.0, 0.0, -875.0]):
+        yield dict(freq=f, cond=c, mapping='Conductivity', dom=('vector', None), stretching=(1.0, 1.5), buf={}, coe='notset', limits=None, pps=3,
+                   vector=v, seasurface=sea, center=float(v[-2]))
     for f, c, sea, b, coe in itertools.product(freqs[:2], conds, [0.0, 133.0, 420.0, 1000.0], bufs[:4], coes):
         yield dict(freq=f, cond=c, mapping='Resistivity', dom=('domain', (-2500.0, -800.0)), stretching=(1.0, 1.5), buf=b, coe=coe, limits=None, pps=3, vector=None,
                    seasurface=sea, center=-1000.0)
@@ -169,7 +175,7 @@ def run_case(mod, cs, cell_numbers=None):
     return 'ok', None
 
 
-def check(tier='quick', seed=0):
+def check(tier='quick', seed=0, part=0, of=1):
     import emg3d
     mod = emg3d.meshes
     rng = np.random.default_rng(seed)
@@ -178,7 +184,9 @@ def check(tier='quick', seed=0):
     def fail(**kw):
         kw.update(reproduced=True, cases=n, how='contracts.c16_concrete.check on the real emg3d.meshes.origin_and_widths / construct_mesh')
         return kw
-    for cs in cases(tier, rng):
+    for idx, cs in enumerate(cases(tier, rng)):
+        if idx % of != part:
+            continue
         n += 1
         st, why = run_case(mod, cs)
         if st == 'violated':
@@ -187,6 +195,8 @@ def check(tier='quick', seed=0):
         raised += st == 'raised'
     if ok < 0.5 * n:
         return fail(clause=f'only {ok} of {n} parameter sets produced a mesh; the others raised', case=None)
+    if part != 0:
+        return dict(reproduced=False, cases=n, meshes=ok, raised=raised)
     # a cell-number list that cannot work must fail loudly
     n += 1
     cs = dict(freq=1.0, cond=[1.0], mapping='Conductivity', dom=('domain', (-1000.0, 1000.0)), stretching=(1.0, 1.2), buf={}, coe=True, limits=None, pps=3,
